@@ -395,6 +395,37 @@ func c01Contexts(r *run.Run) {
 		})
 }
 
+// c01EdgeValues: values at the edges of what their representation in the file holds: font versions whose
+// fraction rounds up to the next integer, matrices of the font dictionaries of a CID-keyed font that equal
+// the conventional default of one side or the other.
+func c01EdgeValues(r *run.Run) {
+	versions := []head.Version{0x00010000, 0x0001FFDF, 0x0001FFE0, 0x0001FFF0, 0x0001FFFF, 0x00020000, 0x0000FFF8, 0x7FFFFFF0}
+	fds := []matrix.Matrix{{1, 0, 0, 1, 0, 0}, {0.001, 0, 0, 0.001, 0, 0}, {0.002, 0, 0, 0.002, 0, 0}}
+	tops := []matrix.Matrix{{0.001, 0, 0, 0.001, 0, 0}, {1, 0, 0, 1, 0, 0}}
+	r.Explore(explore.Config{Name: "C01.edge-values"},
+		"fonts of each outline kind with the version 1.0, 1.99948.. 1.99998 (fractions that round up to 2.000 when written with three decimals), 2.0, 0.9999 or 32767.9998, CID-keyed fonts with the matrices [1 0 0 1 0 0], [0.001 0 0 0.001 0 0] or [0.002 0 0 0.002 0 0] in every font dictionary under a top-level matrix of 0.001 or 1: same round-trip and fixed-point oracle as C01.generated (the version to three decimals)",
+		func(c *explore.Ctx) {
+			kind := c.Choose(3, "outline kind")
+			f, _ := FontFromChoices(gen.FontOpts{NoMeta: true, Compact: true, NoLayout: true}, kind, 2)
+			f.Version = versions[c.Choose(len(versions), "version")]
+			desc := fmt.Sprintf("%s, version %#x", gen.KindNames[kind], uint32(f.Version))
+			if o, ok := f.Outlines.(*cff.Outlines); ok && o.IsCIDKeyed() {
+				o2 := *o
+				fd := fds[c.Choose(len(fds), "matrix of the font dictionaries")]
+				o2.FontMatrices = make([]matrix.Matrix, len(o.FontMatrices))
+				for i := range o2.FontMatrices {
+					o2.FontMatrices[i] = fd
+				}
+				f.Outlines = &o2
+				f.FontMatrix = tops[c.Choose(len(tops), "top-level matrix")]
+				desc += fmt.Sprintf(", font dictionaries %v, top level %v", fd, f.FontMatrix)
+			}
+			c.Sample(func() any { return desc })
+			c.Nontrivial()
+			c01Cycle(c, f, gen.KindNames[kind]+" edge values", desc)
+		})
+}
+
 // c01Sizes sweeps the sizes that decide offset widths and table formats inside a whole font: string
 // lengths (CFF String and Name INDEX offset sizes, name table storage) and the number of glyphs
 // (CharStrings INDEX, charset and FDSelect formats, loca, hmtx), one step at a time.
@@ -703,6 +734,7 @@ func init() {
 			"glyph coordinates of generated CFF fonts are 16.16-representable",
 		}
 		c01Sizes(r)
+		c01EdgeValues(r)
 		c01Contexts(r)
 		// the GSUB/GPOS table of a font: lookup lists at the points where extension records set in (shared with C08)
 		c08ExtensionWindowPart(r, "C01.lookup-list-extension", 1, 4, 4)
